@@ -91,8 +91,8 @@ def peel_off_esc_code(s: str) -> Tuple[str, Optional[Token], str]:
                     ["""+'\x9b' + r"""])
                 (?P<private>)
                 (?P<numbers>
-                    (?:\d+;)*
-                    (?:\d+)?)
+                    (?:[0-9]+;)*
+                    (?:[0-9]+)?)
                 (?P<intermed>""" + '[\x20-\x2f]*)' + r"""
                 (?P<command>""" + '[\x40-\x7e]))' + r"""
             (?P<rest>.*)"""
